@@ -476,18 +476,36 @@ def gen_tok_tables():
     rel = "brush-parser/src/tokenizer.rs"
     src = _strip_comments(_read(rel))
     variants = _enum_variants(src, "TokenizerError", rel)
+    UNRECOGNISED["incomplete"] = []
+    alt_re = r"^\s*Self::(%s)\s*(\(\s*\.\.\s*\))?\s*$" % IDENT
+    inc = None
     m = re.search(r"pub\s+const\s+fn\s+is_incomplete\s*\(\s*&self\s*\)\s*->\s*bool\s*\{\s*matches!\s*\(\s*self\s*,(.*?)\)\s*\}", src, flags=re.S)
-    if not m:
-        raise core.CheckBroken("translator: %s: is_incomplete is not a single matches!(self, ...)" % rel)
-    inc = []
-    for alt in m.group(1).split("|"):
-        am = re.match(r"^\s*Self::(%s)\s*(\(\s*\.\.\s*\))?\s*$" % IDENT, alt)
-        if not am:
-            raise core.CheckBroken("translator: %s: is_incomplete alternative %r not recognised" % (rel, alt.strip()))
-        inc.append(am.group(1))
-    for v in inc:
-        if v not in variants:
-            raise core.CheckBroken("translator: is_incomplete mentions unknown variant %s" % v)
+    if m:
+        alts = [re.match(alt_re, alt) for alt in m.group(1).split("|")]
+        if all(alts):
+            inc = [am.group(1) for am in alts]
+    else:
+        # the other readable shape: `match self { A | B(..) => true, C | D => false }` (no guards, no wildcard)
+        m2 = re.search(r"pub\s+const\s+fn\s+is_incomplete\s*\(\s*&self\s*\)\s*->\s*bool\s*\{\s*match\s+self\s*\{(.*?)\}\s*\}", src, flags=re.S)
+        if m2:
+            got, ok, seen_all = [], True, []
+            for arm in [x for x in re.split(r",\s*(?=Self::|_\s*=>)|,\s*$", m2.group(1).strip()) if x.strip()]:
+                am = re.match(r"^(.*?)=>\s*(true|false)\s*,?\s*$", arm.strip(), flags=re.S)
+                if not am:
+                    ok = False
+                    break
+                alts = [re.match(alt_re, alt) for alt in am.group(1).split("|")]
+                if not all(alts):
+                    ok = False
+                    break
+                seen_all += [x.group(1) for x in alts]
+                if am.group(2) == "true":
+                    got += [x.group(1) for x in alts]
+            if ok and sorted(seen_all) == sorted(variants):
+                inc = got
+    if inc is None or any(v not in variants for v in inc):
+        UNRECOGNISED["incomplete"].append("%s: TokenizerError::is_incomplete has an unrecognised shape" % rel)
+        inc = [v for v in variants if v.startswith("Unterminated")]
     perel = "brush-parser/src/error.rs"
     pvariants = _enum_variants(_strip_comments(_read(perel)), "ParseError", perel)
 
@@ -555,7 +573,6 @@ def gen_tok_tables():
         raise core.CheckBroken("translator: %s: ends_with_line_continuation not found" % crel)
     ei = em.end() - 1
     ebody = re.sub(r"\s+", " ", csrc[ei:_balanced(csrc, ei, "{", "}")])
-    UNRECOGNISED["incomplete"] = []
     shape = (r"^\{ let Some\(truncated\) = input\.strip_suffix\('(\\?.)'\) else \{ return false; \}; "
              r"if !truncated\.ends_with\('(\\?.)'\)(?P<extra>[^{]*?) \{ return false; \} "
              r"matches!\( shell\.parse_string\(truncated\), Err\(brush_parser::ParseError::Tokenizing \{ "
@@ -589,12 +606,17 @@ def gen_tok_tables():
     # line counting in execute_line
     irel = "brush-interactive/src/interactive_shell.rs"
     isrc = re.sub(r"\s+", " ", _strip_comments(_read(irel)))
-    lm = re.search(r"let line_count = read_result\.lines\(\)\.count\(\)\.max\((\d+)\);", isrc)
+    lm = re.search(r"let line_count = (\w+)\.lines\(\)\.count\(\)\.max\((\d+)\);", isrc)
+    floor = "1"
     if not lm or "shell.increment_interactive_line_offset(line_count);" not in isrc:
-        raise core.CheckBroken("translator: %s: execute_line line counting not recognised" % irel)
-    order_ok = isrc.find("shell.run_string(read_result") < isrc.find("shell.increment_interactive_line_offset(line_count)")
-    if not order_ok:
-        raise core.CheckBroken("translator: %s: line offset is not advanced after running the chunk" % irel)
+        UNRECOGNISED["incomplete"].append("%s: execute_line line counting not recognised" % irel)
+    else:
+        floor = lm.group(2)
+        if lm.group(1) != "read_result" or not re.search(r"shell\.run_string\(read_result\b", isrc):
+            # the model counts the lines of exactly the text that is run
+            UNRECOGNISED["incomplete"].append("%s: execute_line counts the lines of `%s`, not of the text handed to run_string" % (irel, lm.group(1)))
+        if not (isrc.find("shell.run_string(read_result") < isrc.find("shell.increment_interactive_line_offset(line_count)")):
+            UNRECOGNISED["incomplete"].append("%s: the line offset is not advanced after running the chunk" % irel)
     out = ["(** GENERATED by translator/ex_cache.py from the brush sources - do not edit. *)",
            "From Coq Require Import String List NArith.", "From BV Require Import Modes.Classes.", "Import ListNotations.", "Local Open Scope string_scope.", "",
            "(** variants of brush_parser::TokenizerError, in declaration order *)",
@@ -610,7 +632,7 @@ def gen_tok_tables():
            "Definition cont_last : N := %d%%N." % last,
            "Definition cont_variant : string := %s." % _cs(cvar), "",
            "(** execute_line: line_count = read_result.lines().count().max(k) *)",
-           "Definition line_count_floor : nat := %s." % lm.group(1), "",
+           "Definition line_count_floor : nat := %s." % floor, "",
            "(** shapes in the completeness decision that the extractor does not recognise (must be empty) *)",
            "Definition incomplete_unrecognised : list string := %s." % _cl([_cs(u) for u in UNRECOGNISED["incomplete"]])]
     return regen.write_if_changed("C15Incomplete.v", "\n".join(out) + "\n")
